@@ -184,9 +184,63 @@ def execute(ex: Execution, expected: list[str], arrivals: list[tuple[str, int]],
         return obs, v
 
 
+# ------------------------------------------------ a collector whose run is paused, resumed and looked at mid-run
+def wf_collect_repeated() -> type:
+    """expected [A, B, B, C] (a repeated type); the events arrive one by one from outside; the run ends with the set it returns"""
+    async def start(self, ctx, ev, inv):  # noqa: ANN001
+        return None
+
+    async def coll(self, ctx, ev, inv):  # noqa: ANN001
+        await gate(f"c{type(ev).__name__}{ev.uid}")
+        r = ctx.collect_events(ev, [A, B, B, C])
+        if r is None:
+            return None
+        inv.info["returned"] = tuple(f"{type(x).__name__}{x.uid}" for x in r)
+        return StopEvent(result=list(inv.info["returned"]))
+
+    return make_workflow("CollectRepeated", [make_step("start", [StartEvent], [A, B, C, None], start),
+                                             make_step("coll", [A, B, C], [StopEvent, None], coll, num_workers=1)])
+
+
+def _arrival_script(state: dict[str, Any]) -> list[list[Any]]:
+    from vmc.engine import Action
+
+    def send(t: str, uid: int) -> Any:
+        return Action(f"send {t}{uid}", lambda: state["hd"].ctx.send_event(TYPES[t](uid=uid)))
+
+    return [[send("A", 1), send("B", 1), send("C", 1), send("B", 2)]]
+
+
+def _resumed_oracle() -> Any:
+    from vmc.engine import task_outcome
+    from vmc.progs import Oracle
+
+    def final(h: Any, e: Any, state: dict[str, Any]) -> None:
+        out = task_outcome(state["hd"]._result_task)
+        w = {"expected": "ABBC", "workers": "1", "run_paused_and_resumed": bool(state.get("resumed")), "state_read_mid_run": bool(h.spec.peeks)}
+        lists = [inv.info["returned"] for inv in h.invocations if inv.step == "coll" and inv.exited and inv.exc is None and "returned" in inv.info]
+        want = ("A1", "B1", "B2", "C1")
+        if out[0] != "result":
+            h.violate("lost_or_unserializable", {**w, "kind": "fewer_lists_than_any_serial_order"}, f"run ended {out} (stuck={e.stuck}); returned lists {lists}")
+        elif lists != [want]:
+            dup = any(len(set(x)) < len(x) for x in lists)
+            h.violate("event_in_two_returned_lists" if dup or len(lists) > 1 else "lost_or_unserializable",
+                      {**w, "buffer_outdated_when_invocation_started": False} if dup or len(lists) > 1 else {**w, "kind": "not_serializable"},
+                      f"arrivals A1 B1 C1 B2 for expected [A,B,B,C]: returned lists {lists}, the only serial outcome is {[want]}")
+
+    return Oracle(final=final)
+
+
 def programs(tier: str) -> list[Program]:
     q = tier == "quick"
-    ps = []
+    from vmc.progs import Spec, to_programs
+
+    ps = to_programs([
+        Spec("collect_repeated/resumed+peek", {"family": "collect_repeated"}, wf_collect_repeated, scripts=_arrival_script, resume=True, peeks=1,
+             max_dev=(4 if q else 6)),
+        Spec("collect_repeated/resumed_twice+peek", {"family": "collect_repeated"}, wf_collect_repeated, scripts=_arrival_script, resume=True,
+             resume_count=2, peeks=2, max_dev=(3 if q else 5)),
+    ], _resumed_oracle())
     cases = [
         (["A", "B"], [("A", 1), ("B", 1)]),
         (["A", "B"], [("A", 1), ("B", 1), ("B", 2)]),
@@ -268,6 +322,9 @@ RULE = ("expected lists [A,B], [A,A,B], [A,B,C], [A,A] x arrival multisets with 
 from vmc.tables import _ROUND6 as _R6  # noqa: E402
 
 RULE += _R6["C09"]
+from vmc.tables import _ROUND7 as _R7  # noqa: E402
+
+RULE += _R7["C09"]
 
 
 
